@@ -21,6 +21,10 @@ THEOREMS = [
     "BeyondVerif.C07.history_reply_eq_fresh",
     "BeyondVerif.C07.history_reply_eq_fresh_new",
     "BeyondVerif.C07.bind_key_covers_regen",
+    "BeyondVerif.C07.native_reply_eq_fresh",
+    "BeyondVerif.C07.native_reply_eq_fresh_new",
+    "BeyondVerif.C07.native_fresh_reply",
+    "BeyondVerif.C07.native_init_per_instance",
     "BeyondVerif.C07.beta_frame_orthonormal",
     "BeyondVerif.C07.beta_kepler_residual",
     "BeyondVerif.C07.beta_kepler_residual_abs",
@@ -54,6 +58,9 @@ LEVEL_TEXT = ("Lean theorems: (1) default propagator with the sgp4 package as a 
               "the binding logic (orbit setter, _state, _bound_to) as a state machine over a MUTABLE orbit: after any history of in-place edits and propagations the reply is "
               "that of a fresh propagator on the values the orbit holds now (history_reply_eq_fresh), the statements of Sgp4 being read from the AST (any other shape or member "
               "is refused) and 'every input Tle.from_orbit reads is a label or is covered by the key _state compares' decided on sets regenerated from sgp4.py and tle.py. "
+              "(2o) the native propagator as OBJECTS: a state machine whose state is per instance; after any interleaving of bindings, re-bindings, copies and propagations of any number of "
+              "instances the reply of an instance is that of a fresh instance bound to the same orbit (native_reply_eq_fresh), given that the Init() object is created by the setter — "
+              "read from the AST on every run (native_init_per_instance; with a class-level Init the model is the shared-storage machine and the theorem does not apply). "
               "(2) native Sgp4Beta translated from its Python AST on every run, cut into 12 pieces: orthonormal frame, Kepler loop exit => Newton correction "
               "< 1e-12 for every fuel, WGS-72 constants, a0 = (k_e/n0'')^(2/3). (3) native model = reference theory over R, piece by piece, against a "
               "hand-written transcription of python-sgp4's _initl/sgp4init/sgp4 near-Earth path (templates/Sgp4Ref.tpl) that is itself compared with the "
@@ -98,6 +105,8 @@ NOT_COVERED = [
     "the generators reach loop exhaustion (10 passes) only outside the property's domain (tallied)",
     "the SGP4/SDP4 theory itself (inside the library parameter `lib`), including deep-space resonance and lunar-solar terms and the reference's simplified drag model below 220 km (the native model has no such switch; outside the clause)",
     "objects whose drag polynomial changes the semi-major axis by more than 2 % (oracle) / 20 % (correspondences) within the interval are excluded from the native comparisons (tallied)",
+    "Sgp4Beta used through Orbit.propagate (orbit.propagator = Sgp4Beta()): not usable at all in the current source (its `orbit` getter reads `_orbit`, which its setter never sets: AttributeError) — "
+    "the native clause is observed at Sgp4Beta.propagate, as the property says",
     "the compositions sgp4Prop / refSgp4 (which output of one piece is handed to the next) are generated / hand-written plumbing: tied by the correspondences, composed in a theorem only for the initialisation (beta_init_reference)",
     "history_reply_eq_fresh takes 'the compared key determines the library's answer for the regenerated text' as hypothesis: its syntactic side is bind_key_covers_regen (read-sets from the AST), "
     "that label fields do not move the state and that Tle.from_orbit / StateVector attribute writes behave as read is the history oracle's (sources x edited inputs x propagations, expected = python-sgp4 on "
@@ -116,7 +125,11 @@ RULE = ("correspondence: (a) 700/20000 edge datetimes 1957-2056 x 5 labels throu
         "observed by a line tracer on the real code) or the correspondence fails; (d) the same streams: reference spec vs python-sgp4 (record fields, mean elements, state), rtol 1e-9. "
         "(e) 240/1920 histories (12 ways of obtaining the orbit x 15 edited inputs singly, then combinations; before/after a first propagation; edit back) on real Orbit/Sgp4 objects with "
         "twoline2rv intercepted, against the Lean state machine: the setter runs exactly when the model says and the lines handed over are those the harness writes from the values of the version the model names. "
-        "non-trivial = offset != 0; distinct = distinct request. oracle: the same histories end to end (state vs python-sgp4 on harness-written lines of the current values, |v| x 50 us), pinned corpus, 4/24 rounds of the directed generator, 220/2500 catalogue-like TLEs: default propagator vs sgp4 called directly on the "
+        "(f) 60/1200 histories of 2-3 Sgp4Beta instances and 2-3 orbits alive at once (bind, re-bind, shallow copy, propagate, interleaved) against Sgp4Inst.runSeq: per propagation the "
+        "model names the orbit whose elements and the orbit whose cached constants are used, the real reply must be bit for bit that combination. "
+        "non-trivial = offset != 0; distinct = distinct request. oracle: the native instance histories (reply = fresh instance bit for bit, = reference within 1 cm), epoch years over the whole "
+        "two-digit field (57-68, 69-99, 00-56) with orbit.date == epoch parsed independently (pivot 57) and requests relative to the orbit (timedelta, orb.date + dt, iter) compared with the "
+        "reference at the harness's own epoch + offset, the same histories end to end (state vs python-sgp4 on harness-written lines of the current values, |v| x 50 us), pinned corpus, 4/24 rounds of the directed generator, 220/2500 catalogue-like TLEs: default propagator vs sgp4 called directly on the "
         "original lines and independently computed UTC fields (|v| x 50 us), timedelta argument, label independence (UTC/TAI/TT/GPS/UT1), 3-line TLEs, native vs reference theory 1 cm in the full "
         "near-Earth domain; branch distribution of the native code, the wrapper and the reference record in the evidence (keys branch*)")
 
@@ -190,7 +203,10 @@ def gen_beta():
     #    cut into: un-Kozai'd mean motion and semi-major axis | the s / q0 adjustment for low perigees | C1, C3 | C4, C5 | D2-D4 | secular rates
     tr = py2lean_ext.XTr()
     tr.global_names = {"g_" + g for g in gnames}
-    body = [ren.visit(st) for st in _body(setter, SKIP_INIT)]
+    skip_init = list(SKIP_INIT)
+    if "shared" in gen_beta_inst().split("def initStorage")[1].split("\n")[0]:
+        skip_init.remove("self._init = Init()")      # created in the class body: the object side (Sgp4Inst, storage = shared) models that
+    body = [ren.visit(st) for st in _body(setter, skip_init)]
     fields = ["i_" + f for f in INIT_FIELDS]
     text, init_info = py2lean_ext.chunks(tr, body, ["rp", "i_θ", "i_C4", "i_D2", "i_Mdot"], ["sgp4InitKozai", "sgp4InitS", "sgp4InitDrag", "sgp4InitEcc", "sgp4InitD", "sgp4InitDot"], [], "sgp4Init", ELEMS,
                                          doc=f"`Sgp4Beta.orbit` setter: the cached `_init` values in the order {', '.join(INIT_FIELDS)}",
@@ -338,9 +354,61 @@ def gen_wrap_bind():
             "end BeyondVerif.Sgp4Wrap\n")
 
 
+def gen_beta_inst():
+    """where the objects of Sgp4Beta keep what `propagate` reads: class body vs instance (setter) — Generated/Sgp4BetaInst.lean"""
+    tree, _model, setter, prop = beta_source()
+    cls = py2lean.find_function(tree, "Sgp4Beta")
+    class_attrs, class_objects = [], []
+    for st in cls.body:
+        if isinstance(st, (ast.Assign, ast.AnnAssign)):
+            targets = st.targets if isinstance(st, ast.Assign) else [st.target]
+            for t in targets:
+                if isinstance(t, ast.Name):
+                    class_attrs.append(t.id)
+                    if st.value is not None and any(isinstance(n, ast.Call) and ast.unparse(n.func) == "Init" for n in ast.walk(st.value)):
+                        class_objects.append(t.id)
+    def self_writes(fn):
+        out = []
+        for n in ast.walk(fn):
+            if isinstance(n, ast.Attribute) and isinstance(n.ctx, ast.Store) and isinstance(n.value, ast.Name) and n.value.id == "self" and n.attr not in out:
+                out.append(n.attr)
+        return out
+    def self_reads(fn):
+        out = []
+        for n in ast.walk(fn):
+            if isinstance(n, ast.Attribute) and isinstance(n.ctx, ast.Load) and isinstance(n.value, ast.Name) and n.value.id == "self" and n.attr not in out:
+                out.append(n.attr)
+        return out
+    in_setter = any(isinstance(st, ast.Assign) and ast.unparse(st) == "self._init = Init()" for st in setter.body)
+    others = [f.name for f in cls.body if isinstance(f, ast.FunctionDef) and f is not setter
+              and any(isinstance(n, ast.Call) and ast.unparse(n.func) == "Init" for n in ast.walk(f))]
+    if others:
+        raise py2lean.Untranslatable(f"Init() is created in {others}: not modelled")
+    if in_setter and not class_objects:
+        storage = "perInstance"
+    elif class_objects and not in_setter:
+        storage = "shared"
+    else:
+        raise py2lean.Untranslatable(f"Init() created in the class body as {class_objects} and in the setter: {in_setter}: not modelled")
+    q = lambda xs: "[" + ", ".join('"' + x + '"' for x in xs) + "]"
+    return ("/- GENERATED by harness/props/C07.py (gen_beta_inst) from beyond/propagators/sgp4beta.py — do not edit. -/\n"
+            "import BeyondVerif.Model.Sgp4Inst\nnamespace BeyondVerif.Sgp4BetaInst\n\n"
+            "/-- where the `Init()` object holding the constants of the setter is created: by the setter (`self._init = Init()`) or in the class body -/\n"
+            f"def initStorage : BeyondVerif.Sgp4Inst.Storage := BeyondVerif.Sgp4Inst.Storage.{storage}\n\n"
+            f"/-- names assigned in the body of class Sgp4Beta -/\ndef classAttrs : List String := {q(class_attrs)}\n\n"
+            f"/-- `self.<name> = …` in the setter -/\ndef setterSelfWrites : List String := {q(self_writes(setter))}\n\n"
+            f"/-- `self.<name>` read by propagate -/\ndef propagateSelfReads : List String := {q(self_reads(prop))}\n\n"
+            "end BeyondVerif.Sgp4BetaInst\n")
+
+
 def extract(ctx):
+    # the object side first: it does not depend on the formulas being translatable
+    ch0 = []
+    if core.write_if_changed(os.path.join(core.LEAN, "BeyondVerif", "Generated", "Sgp4BetaInst.lean"), gen_beta_inst()):
+        ch0.append("Generated/Sgp4BetaInst.lean")
     body, loop, info = gen_beta()
-    ch = py2lean.instantiate(core.LEAN, "Sgp4Beta", body, "beyond/propagators/sgp4beta.py")
+    ch0 = ch0  # noqa
+    ch = ch0 + py2lean.instantiate(core.LEAN, "Sgp4Beta", body, "beyond/propagators/sgp4beta.py")
     if core.write_if_changed(os.path.join(core.LEAN, "BeyondVerif", "Generated", "Sgp4WrapBind.lean"), gen_wrap_bind()):
         ch.append("Generated/Sgp4WrapBind.lean")
     ch += instantiate.main()
@@ -402,7 +470,7 @@ def gen_tle(rng):
         inc = rng.uniform(0, 120)
     inc = round(inc, 4)
     raan, argp, ma = (round(rng.uniform(0, 359.9999), 4) for _ in range(3))
-    year = rng.randint(1973, 2017)
+    year = gen_year(rng)
     ndays = 366 if year % 4 == 0 else 365
     day = round(rng.uniform(1, ndays + 0.999), 8)
     if rng.random() < 0.05:
@@ -467,6 +535,15 @@ def gen_offset_us(rng):
 # is produced deliberately here: one "feature" per TLE on a base object of a chosen regime, thresholds from BOTH sides at the
 # resolution of the TLE field (the two adjacent field values between which the reference's own classification flips).
 
+def gen_year(rng):
+    """epoch year: mostly the property's 1973-2017, one in six anywhere in the two-digit year field's range — 57-68 and 69-99 are 19xx,
+    00-56 are 20xx (the TLE pivot; POSIX %y pivots at 69)"""
+    r = rng.random()
+    if r < 0.84:
+        return rng.randint(1973, 2017)
+    return rng.choice([rng.randint(1957, 1968), rng.randint(1969, 1972), rng.randint(2018, 2056), 1957, 1968, 1969, 2056])
+
+
 def fmt_tle(p):
     """TLE text of the exact field values in `p` (written here, not by beyond)"""
     ndots = f"{p['ndot']: 0.8f}".replace("0.", ".")
@@ -505,7 +582,7 @@ def base_fields(rng, regime):
         n = rng.choice([rng.uniform(0.5, 6.2), rng.uniform(0.95, 1.05), rng.uniform(1.95, 2.06)])
         e = rng.uniform(0.0005, min(0.9, 1 - (RE_KM + 300.0) / _a_km(n)))
     be = math.floor(math.log10(abs(bstar))) + 1
-    year = rng.randint(1973, 2017)
+    year = gen_year(rng)
     return {"norad": rng.randint(1, 99999), "cospar": f"{rng.randint(57, 99):02d}{rng.randint(1, 999):03d}{rng.choice(['A', 'B', 'AB'])}",
             "year": year, "day": round(rng.uniform(2.0, 364.0), 8), "ndot": round(rng.uniform(-1e-5, 2e-4), 8),
             "nddm": rng.choice([0, 0, rng.randint(10000, 99999)]), "ndde": 0, "bm": int(round(bstar / 10.0 ** be * 1e5)), "be": be,
@@ -618,7 +695,10 @@ FEATURES = [
     ("epoch-day=001.00000000", _set(day=1.0), None), ("epoch-day=001.00000001", _set(day=1.00000001), None),
     ("epoch-leap-day-366", _leap_day366, None), ("epoch-year-end-365", _year_end, None),
     ("epoch-year=2000", _set(year=2000), None), ("epoch-year=1999", _set(year=1999), None), ("epoch-year=1973", _set(year=1973), None),
-    ("epoch-year=2017", _set(year=2017), None), ("epoch-feb29", lambda p, rng, side: p.update(year=[1996, 2016][side], day=[60.0, 60.5][side]) or True, None),
+    ("epoch-year=2017", _set(year=2017), None),
+    # the two-digit year field: 57 is the first year of the 19xx range, 68 | 69 the POSIX pivot, 56 the last year of the 20xx range
+    ("epoch-year=1957(yy=57)", _set(year=1957, day=277.8), None), ("epoch-year=1958(yy=58)", _set(year=1958), None), ("epoch-year=1968(yy=68)", _set(year=1968), None),
+    ("epoch-year=1969(yy=69)", _set(year=1969), None), ("epoch-year=2056(yy=56)", _set(year=2056), None), ("epoch-year=1964(yy=64)", _set(year=1964), None), ("epoch-feb29", lambda p, rng, side: p.update(year=[1996, 2016][side], day=[60.0, 60.5][side]) or True, None),
     ("mean-motion=16.5", _set(n8=1650000000, e7=300), ["near-low"]), ("mean-motion=0.5", _set(n8=50000000), ["deep"]),
     ("perigee=220km(by e)", _thr_perigee(220.0, "e"), ["near-full"]), ("perigee=220km(by n)", _thr_perigee(220.0, "n"), ["near-full"]),
     ("perigee=156km(by e)", _thr_perigee(156.0, "e"), ["near-low"]), ("perigee=156km(by n)", _thr_perigee(156.0, "n"), ["near-low"]),
@@ -911,6 +991,14 @@ def check_tle(out, rng, l1, l2, info, offsets):
     sat = reference(l1, l2)
     deep = sat.method == "d"
     full = (not deep) and sat.isimp == 0
+    # the orbit's date is the epoch of the text, parsed here independently (two-digit year: 57-99 -> 19xx, 00-56 -> 20xx; day of year from 1)
+    yy = int(l1[18:20])
+    yyc = "57-68" if 57 <= yy <= 68 else "69-99" if yy >= 69 else "00-56"
+    out.tally("epoch-year-field=" + yyc)
+    d_epoch = abs((orb.date.change_scale("UTC").datetime - info["epoch"]) // US)
+    if d_epoch > 1:
+        out.fail(f"tle-epoch:year-field-{yyc}", "the date of an orbit read from a TLE is not the epoch of the text (year field: 57-99 -> 19xx, 00-56 -> 20xx)", inp0,
+                 observed=str(orb.date), expected=info["epoch"].isoformat())
     model = "sdp4" if deep else ("sgp4-full" if full else "sgp4-simple")
     tally_branches(out, "branch", reference_branches(sat))
     if info.get("feature"):
@@ -963,6 +1051,24 @@ def check_tle(out, rng, l1, l2, info, offsets):
             out.count(key=(l1, off, "td"), nontrivial=off != 0, kind="wrapper-timedelta")
             if not (dp <= tol_pos(speed) and dv <= acc * 50e-6 + 1e-9):
                 out.fail(family_of(info, off, "wrapper-timedelta"), "propagate(timedelta) differs from the reference at epoch + timedelta", inp, observed=got2, expected=exp, dpos_m=dp)
+        # 2b. requests expressed relative to the orbit (orb.date + dt, iter from the orbit's date): the same instant as the harness's own
+        #     epoch + offset (independent parse of the text), compared with the reference there
+        from beyond.dates import timedelta as _td
+        rel = []
+        try:
+            rel.append(("orb.date+dt", [float(x) for x in orb.propagate(orb.date + _td(microseconds=off))]))
+            if off != 0:
+                pts = list(orb.iter(start=orb.date, stop=_td(microseconds=off), step=_td(microseconds=off)))
+                rel.append(("iter", [float(x) for x in pts[-1]]))
+                out.tally(f"wrapper-iter-points={len(pts)}")
+        except Exception as e:
+            out.fail(family_of(info, off, "wrapper-relative-raises-" + type(e).__name__), "a request relative to the orbit's date raises", inp, observed=repr(e), expected=exp)
+        for how, got3 in rel:
+            dp, dv = dist(got3, exp)
+            out.count(key=(l1, off, how), nontrivial=off != 0, kind="wrapper-relative", how=how, year_field=yyc)
+            if not (dp <= tol_pos(speed) and dv <= acc * 50e-6 + 1e-9):
+                out.fail(family_of(info, off, f"wrapper-relative({how}):yy-{yyc}"), f"{how}: the state at (orbit date + offset) is not the reference's at (epoch of the text + offset)",
+                         inp, observed=got3, expected=exp, dpos_m=dp)
         # 3. label independence of the wrapper
         other = date.change_scale(olabel)
         goto = [float(x) for x in orb.propagate(other)]
@@ -1264,6 +1370,166 @@ def check_history(out, h, classify=True):
         raise
 
 
+# ---------------------------------------------------------------- the native propagator as objects: several instances alive
+#
+# Sgp4Beta instances keep state between calls (`self.tle`, `self._init`).  Histories: 2-3 instances and 2-3 orbits alive at once, bound,
+# re-bound, shallow-copied and asked to propagate in interleaved order, directly (`p.orbit = o; p.propagate(d)`) or through the orbit
+# (`o.propagator = Sgp4Beta(); o.propagate(d)`).  Every reply must be bit for bit the reply of a fresh instance bound to the orbit that
+# instance holds, and (full near-Earth model) the reference's within 1 cm.
+
+def gen_native_history(rng, k):
+    # (through Orbit.propagate a Sgp4Beta cannot be used at all: its `orbit` getter reads `_orbit`, which its setter never sets — outside the statement)
+    n_orb, n_inst = rng.choice([2, 2, 3]), rng.choice([2, 2, 3])
+    orbits = []
+    for j in range(n_orb):
+        p = base_fields(rng, ["near-drag", "near-full"][(k + j) % 2])
+        if rng.random() < 0.2:
+            FEATURES[rng.randrange(len(FEATURES))][1](p, rng, rng.randrange(2))
+        orbits.append(list(fmt_tle(_fix(p))))
+    day = 86_400_000_000
+    ops = []
+    if k % 2 == 0:
+        # the plain pattern: bind every instance once, then use them in another order
+        for i in range(n_inst):
+            ops.append(["bind", i, i % n_orb])
+        order = list(range(n_inst))
+        rng.shuffle(order)
+        for i in order + order[::-1]:
+            ops.append(["prop", i, rng.choice([-1, 1]) * rng.randint(day // 24, 10 * day)])
+    for _ in range(rng.randint(3, 9) if k % 2 else rng.randint(0, 4)):
+        r = rng.random()
+        if r < 0.3:
+            ops.append(["bind", rng.randrange(n_inst), rng.randrange(n_orb)])
+        elif r < 0.4:
+            ops.append(["copy", rng.randrange(n_inst), rng.randrange(n_inst)])
+        else:
+            ops.append(["prop", rng.randrange(n_inst), rng.choice([-1, 1]) * rng.randint(day // 24, 10 * day)])
+    return {"orbits": orbits, "instances": n_inst, "via": "direct", "ops": ops, "label": rng.choice(LABELS)}
+
+
+def run_native_history(h, on_reply):
+    """drive real Sgp4Beta instances through `h`; `on_reply(step, inst, orbit index, offset, date, state or exception)` per propagation.
+    returns the token list of the same history for `Sgp4Inst.runSeq`"""
+    import copy as _copy
+    from beyond.io.tle import Tle
+    from beyond.dates import Date
+    from beyond.propagators.sgp4beta import Sgp4Beta
+    orbs = [Tle(a + "\n" + b).orbit() for a, b in h["orbits"]]
+    via = h["via"] == "orbit.propagate"
+    insts = [Sgp4Beta() for _ in range(h["instances"])]
+    bound = {}
+    toks = []
+    for step, op in enumerate(h["ops"]):
+        if op[0] == "bind":
+            _, i, o = op
+            if via:
+                # the orbit object carries the instance: a fresh copy of the orbit per binding, so that two instances may hold the same element set
+                carrier = orbs[o].copy()
+                carrier.propagator = insts[i]
+                insts[i].orbit = carrier
+            else:
+                insts[i].orbit = orbs[o]
+            bound[i] = o
+            toks.append(f"b{i}:{o}")
+        elif op[0] == "copy":
+            _, i, j = op
+            if i == j or i not in bound:
+                continue
+            insts[j] = _copy.copy(insts[i])
+            bound[j] = bound[i]
+            toks.append(f"b{j}:{bound[i]}")
+        else:
+            _, i, off = op
+            if i not in bound:
+                continue
+            o = bound[i]
+            epoch_utc = orbs[o].date.change_scale("UTC").datetime
+            date = Date(epoch_utc + off * US, scale="UTC")
+            if h["label"] != "UTC":
+                date = date.change_scale(h["label"])
+            try:
+                got = [float(x) for x in (insts[i].orbit.propagate(date) if via else insts[i].propagate(date))]
+            except Exception as e:
+                got = e
+            toks.append(f"p{i}")
+            on_reply(step, i, o, off, date, got, orbs)
+    return toks
+
+
+def native_with(orbs, o, c, date):
+    """state of an instance that uses the ELEMENTS of orbit o and the cached CONSTANTS of orbit c (o == c: a fresh instance bound to o)"""
+    from beyond.propagators.sgp4beta import Sgp4Beta
+    f = Sgp4Beta()
+    f.orbit = orbs[c]
+    if o != c:
+        f.tle = orbs[o]
+    return [float(x) for x in f.propagate(date)]
+
+
+def check_native_history(out, h):
+    inp = {"native_history": h}
+    fam = f"native-history:{h['instances']}-instances:{len(h['orbits'])}-orbits:{h['via']}"
+
+    def on_reply(step, i, o, off, date, got, orbs):
+        out.count(key=(repr(h["orbits"]), repr(h["ops"]), step), kind="native-history", via=h["via"], instances=h["instances"])
+        if isinstance(got, Exception):
+            out.fail(fam + ":raises-" + type(got).__name__, "a bound Sgp4Beta instance raises after an interleaving with other instances", dict(inp, step=step), observed=repr(got))
+            return
+        fresh = native_with(orbs, o, o, date)
+        same = all(a == b or (math.isnan(a) and math.isnan(b)) for a, b in zip(got, fresh))
+        if not same:
+            dp, dv = dist(got, fresh)
+            out.fail(fam, "a Sgp4Beta instance used after other instances were bound / used does not return what a fresh instance bound to the same orbit returns",
+                     dict(inp, step=step, instance=i, orbit=o, offset_us=off), observed=got, expected=fresh, dpos_m=dp)
+            return
+        l1, l2 = h["orbits"][o]
+        sat = reference(l1, l2)
+        if sat.method == "n" and sat.isimp == 0:
+            tmin = off / 60e6
+            expn = ref_state_tsince(sat, tmin)
+            tempa = 1 - sat.cc1 * tmin - sat.d2 * tmin ** 2 - sat.d3 * tmin ** 3 - sat.d4 * tmin ** 4
+            if expn is not None and abs(tempa - 1) < 0.01:
+                dp, dv = dist(got, expn)
+                if not dp <= 0.01 + norm(expn[3:]) * 2e-6:
+                    out.fail(fam + ":vs-reference", "native SGP4 (instance with a history) differs from the reference by more than 1 cm inside the full near-Earth model's domain",
+                             dict(inp, step=step, instance=i, orbit=o, offset_us=off), observed=got, expected=expn, dpos_m=dp)
+    run_native_history(h, on_reply)
+
+
+def native_inst_cases(ctx, out):
+    """real Sgp4Beta instances vs `Sgp4Inst.runSeq` (storage of the Init object as read from the source): the model names, per propagation, the
+    orbit whose elements and the orbit whose cached constants the instance uses; the real reply must be bit for bit that combination"""
+    rng = ctx.rng
+    reqs, meta = [], []
+    with eop():
+        for k in range(ctx.n(60, 1200)):
+            h = gen_native_history(rng, k)
+            obs = []
+            toks = run_native_history(h, lambda step, i, o, off, date, got, orbs: obs.append((step, i, o, date, got, orbs)))
+            if not toks:
+                continue
+            reqs.append("natseq " + " ".join(toks))
+            meta.append((h, obs))
+            out.count(key=(repr(h["orbits"]), repr(h["ops"])), kind="native-instances", via=h["via"], instances=h["instances"], propagations=len(obs))
+        replies = core.Driver().run(reqs)
+        for req, (h, obs), rep in zip(reqs, meta, replies):
+            toks = [] if rep == "-" else rep.split()
+            if len(toks) != len(obs):
+                out.fail("native-instances-model", "model rejected the history", {"native_history": h}, observed=len(obs), expected=rep)
+                continue
+            for (step, i, o, date, got, orbs), t in zip(obs, toks):
+                if t == "unbound" or isinstance(got, Exception):
+                    out.fail("native-instances", "instance unbound in the model / raising in the code", {"native_history": h, "step": step}, observed=repr(got), expected=t)
+                    break
+                mo, mc = (int(x) for x in t.split(":"))
+                out.tally("native-instances-constants=" + ("own-orbit" if mo == mc else "another-orbit"))
+                want = native_with(orbs, mo, mc, date)
+                if mo != o or not all(a == b or (math.isnan(a) and math.isnan(b)) for a, b in zip(got, want)):
+                    out.fail("native-instances", f"instance {i}: the model says elements of orbit {mo} with the constants of orbit {mc}; the code returns something else",
+                             {"native_history": h, "step": step}, observed=got, expected=want)
+                    break
+
+
 def info_of_lines(l1, l2):
     """what the generator records about a TLE, recomputed from its text (pinned corpus, replay)"""
     year = int(l1[18:20])
@@ -1311,6 +1577,9 @@ def oracle(ctx, widened):
         # mutable orbits: every source x every edited input, before / after a first propagation (gen_history)
         for k in range((12 if (widened or ctx.thorough) else 1) * (len(SOURCES) * len(EDIT_FIELDS) + 60)):
             check_history(out, gen_history(rng, k))
+        # several native instances alive, interleaved (gen_native_history)
+        for k in range(600 if (widened or ctx.thorough) else 60):
+            check_native_history(out, gen_native_history(rng, k))
         for _ in range(N):
             l1, l2, info = gen_tle(rng)
             if rng.random() < 0.1:
@@ -1329,6 +1598,10 @@ def replay(f):
     import random
     out = Outcome()
     i = f["input"]
+    if "native_history" in i:
+        with eop():
+            check_native_history(out, i["native_history"])
+        return out
     if "history" in i:
         with eop():
             check_history(out, i["history"])
@@ -1783,6 +2056,7 @@ def correspondence(ctx):
     out = Outcome()
     wrapper_cases(ctx, out)
     binding_cases(ctx, out)
+    native_inst_cases(ctx, out)
     native_cases(ctx, out)
     refspec_cases(ctx, out)
     return out
